@@ -32,7 +32,8 @@ ASSUMPTIONS = [
 DECIDED = ["a Kahn template", "b rank covers every edge kind", "c declared rank-free edges only", "d forward scan",
            "e the graph scan is the only evaluator", "f push-source prefix",
            'j rank-free declaration is part of the interning identity (= C06.a)',
-           'h also: availability tail of mesh add_dependency (never while paused)', 'k mesh subscribe: add_dependency gate before every bind / publish']
+           'h also: availability tail of mesh add_dependency (never while paused)', 'k mesh subscribe: add_dependency gate before every bind / publish',
+           'l finalizers before rank dependencies before ranking on both finish paths']
 NOT_DECIDED = ["side-channel reads by user nodes", "nested-kind internals (C09-C12)"]
 
 # confirmed rank-free input sites: (file, enclosing function) -> count, with the reason
